@@ -83,6 +83,11 @@ class AbstractSourceSinkGraph(nx.DiGraph):
         self.add_nodes_from(self.base_graph.nodes(data=True))
         self.add_edges_from(self.base_graph.edges(data=True))
 
+        # The global source & sink always exist as nodes (also when nothing gets attached to them, so that
+        # subclasses can detect and reject a graph without sources or sinks)
+        self.add_node(self.source)
+        self.add_node(self.sink)
+
         # Connect global source & sink
         for u in self.base_graph.nodes:
             if self.base_graph.in_degree(u) == 0 or u in self.additional_starts:
